@@ -103,6 +103,7 @@ type env struct {
 	tuples                            map[string]int
 	stop                              bool
 	nviol, bisected                   int
+	refuted                           bool // a proposal with an unauthorised transaction was built (and refused by the replica)
 	lastProposeErr                    string
 	victimSig                         map[string]*lib.Signature // the one genuine signature of each victim (setup order)
 }
@@ -938,7 +939,7 @@ func (e *env) block(path string, forged, honest []*cand, extra [][]byte) {
 		e.stop = true
 		return
 	}
-	if e.nviol > 0 {
+	if e.nviol > 0 || e.refuted {
 		return // the case is refuted already: no need to search this set any further
 	}
 	e.bisected++
@@ -1032,11 +1033,20 @@ func (e *env) tryBlock(path string, forged, honest []*cand, extra [][]byte) bool
 	}
 	res, er := ch.Validate(1, p, nil)
 	if er != nil {
+		// nothing was committed: take the set back out of the proposer's mempool and let the replica forget the proposal
+		ch.Nodes[1].C.ResetFSM()
+		e.n0.C.Mempool.L.Lock()
+		e.n0.C.Mempool.DeleteTransaction(all...)
+		e.n0.C.Mempool.L.Unlock()
 		if flagged == 0 {
 			e.inconclusive("%s: replica rejects the honest proposal at height %d: %v", e.name, p.Block.BlockHeader.Height, er)
+			e.stop = true
+			return true
 		}
+		// the proposer put a transaction nobody entitled signed into its block (reported above) and the replica refused
+		// it: the honest story cannot go on from here, the small ordered blocks of path (e) still can
 		e.run.Count("proposals_with_unauthorised_tx_rejected_by_replica", 1)
-		e.stop = true
+		e.refuted = true
 		return true
 	}
 	vs, er := ch.Committee(ch.Nodes[0], p.QC.Header.RootHeight)
@@ -1137,7 +1147,7 @@ func (e *env) round(r int, forged []*cand) {
 	crypto.SignatureCache.Reset()
 	e.pathA(forged)
 	for j, path := range []string{"b", "c", "d"} {
-		if e.stop {
+		if e.stop || e.refuted {
 			return
 		}
 		step := 3*r + j
@@ -1466,7 +1476,7 @@ func runCase(t *testing.T, run *core.Run, name string, idx int, rng *rand.Rand) 
 	// quick: two rounds (six blocks = the six steps of the honest story), every message type once per case;
 	// thorough: four rounds, every message type x key type in every round
 	rounds := core.Pick(2, 4)
-	for r := 0; r < rounds && !e.stop; r++ {
+	for r := 0; r < rounds && !e.stop && !e.refuted; r++ {
 		var forged []*cand
 		for i, mt := range accountMsgs {
 			if core.Thorough() || (i+r+e.off)%2 == 0 {
